@@ -636,6 +636,42 @@ func lockMutexMain(args []string) {
 			}()
 		}
 	}
+	// ---------------- W6: lock identifiers and directories that happen to contain pattern characters ----------------
+	for _, backend := range []string{"mem", "os"} {
+		for _, lockID := range []string{"job[7]", "entry-{a,b}", "build*final?", "plain"} {
+			func() {
+				w := newLockWorld(backend, nil, false)
+				defer w.cleanup()
+				ty := filesystem.InMemoryFS
+				if backend == "os" {
+					ty = filesystem.StandardFS
+				}
+				dir := filepath.Join(w.dir, "locks [x]")
+				_ = w.inner.MkdirAll(dir, 0o755)
+				mk := func(override bool) filesystem.ILock {
+					vfs := filesystem.NewVirtualFileSystem(w.inner, ty, filesystem.IdentityPathConverterFunc).(*filesystem.VFS)
+					return filesystem.NewGenericRemoteLockFile(vfs, lockID, dir, override)
+				}
+				holder, contender, observer := mk(false), mk(true), mk(false)
+				caseTxt := fmt.Sprintf("lockcase w6-identifier-with-pattern-characters id=%q %s", lockID, backend)
+				rep.Eval(caseTxt, true)
+				rep.Hist("w6")
+				if err := holder.TryLock(ctx); err != nil {
+					rep.Fail(hx.Failure{Kind: "impl-violates-property", Key: "lock-cannot-be-acquired:identifier-with-pattern-characters", Case: caseTxt, Observed: err.Error()})
+					return
+				}
+				time.Sleep(260 * time.Millisecond) // more than two heart-beat periods: the holder is alive
+				stale := observer.IsStale()
+				cerr := contender.TryLock(ctx) // it would take a stale lock over
+				if stale || cerr == nil {
+					rep.Fail(hx.Failure{Kind: "impl-violates-property", Key: "two-holders:live-lock-taken-over:identifier-with-pattern-characters", Case: caseTxt,
+						Expected: "the holder is alive: not stale, a contender (which overrides stale locks) is refused", Observed: fmt.Sprintf("IsStale=%v, contender's TryLock: %v", stale, cerr)})
+				}
+				_ = holder.Unlock(ctx)
+				_ = contender.Unlock(ctx)
+			}()
+		}
+	}
 	// ---------------- random concurrent cycles -------------------------------------------------------
 	runs := 30
 	if o.Thorough() {
